@@ -955,7 +955,7 @@ static void string_initializer(Token **rest, Token *tok, Initializer *init) {
     break;
   }
   default:
-    unreachable();
+    error_tok(tok, "array of inappropriate type initialized from string constant");
   }
 
   *rest = tok->next;
@@ -988,7 +988,7 @@ static void string_initializer(Token **rest, Token *tok, Initializer *init) {
 // The above initializer sets x.c to 5.
 static void array_designator(Token **rest, Token *tok, Type *ty, int *begin, int *end) {
   *begin = const_expr(&tok, tok->next);
-  if (*begin >= ty->array_len)
+  if (*begin < 0 || *begin >= ty->array_len)
     error_tok(tok, "array designator index exceeds array bounds");
 
   if (equal(tok, "...")) {
@@ -2056,6 +2056,8 @@ static int64_t eval2(Node *node, char ***label) {
   case ND_ADDR:
     return eval_rval(node->lhs, label);
   case ND_LABEL_VAL:
+    if (!label)
+      error_tok(node->tok, "not a compile-time constant");
     *label = &node->unique_label;
     return 0;
   case ND_MEMBER:
@@ -2081,7 +2083,7 @@ static int64_t eval2(Node *node, char ***label) {
 static int64_t eval_rval(Node *node, char ***label) {
   switch (node->kind) {
   case ND_VAR:
-    if (node->var->is_local)
+    if (node->var->is_local || !label)
       error_tok(node->tok, "not a compile-time constant");
     *label = &node->var->name;
     return 0;
@@ -2544,6 +2546,9 @@ static Node *new_add(Node *lhs, Node *rhs, Token *tok) {
     lhs = rhs;
     rhs = tmp;
   }
+
+  if (!lhs->ty->base || !is_integer(rhs->ty))
+    error_tok(tok, "invalid operands");
 
   // VLA + num
   if (lhs->ty->base->kind == TY_VLA) {
@@ -3257,6 +3262,8 @@ static Node *primary(Token **rest, Token *tok) {
 
   if (equal(tok, "(") && equal(tok->next, "{")) {
     // This is a GNU statement expresssion.
+    if (!current_fn)
+      error_tok(tok, "statement expression outside a function");
     Node *node = new_node(ND_STMT_EXPR, tok);
     node->body = compound_stmt(&tok, tok->next->next)->body;
     *rest = skip(tok, ")");
@@ -3565,6 +3572,10 @@ static Token *global_variable(Token *tok, Type *basety, VarAttr *attr) {
     var->is_tls = attr->is_tls;
     if (attr->align)
       var->align = attr->align;
+
+    if (equal(tok, "=") && prev && prev->var && !prev->var->is_local &&
+        !prev->var->is_function && prev->var->is_definition && !prev->var->is_tentative)
+      error_tok(ty->name, "redefinition of %s", var->name);
 
     if (equal(tok, "=")) {
       // A declaration with an initializer is a definition even if it
